@@ -16,7 +16,7 @@ RULE = ('case = one random portfolio mixing periodic, coarse-frequency, scaled a
 ASSUMPTIONS = ['tolerance 1e-6*(1+|value|+sum|DCF|)', 'unsolved / inaccurate results make no claim (counted)']
 MIN_NONVACUOUS = {'quick': {'value.asset_dcf_is_own_cost': 750, 'value.total_is_sum_of_dcf': 250},
                   'thorough': {'value.asset_dcf_is_own_cost': 6000, 'value.total_is_sum_of_dcf': 2000}}
-KINDS = ('contract', 'transport', 'storage', 'multi', 'orderbook', 'orderbook', 'plant', 'chp', 'structured', 'scaled', 'scaled', 'coarse', 'coarse',
+KINDS = ('contract', 'transport', 'storage', 'multi', 'orderbook', 'orderbook', 'plant', 'chp', 'linked', 'chp_minload', 'structured', 'scaled', 'scaled', 'coarse', 'coarse',
          'periodic', 'periodic', 'storage_blocks', 'storage_mip')
 
 
